@@ -284,9 +284,9 @@ int main(int argc, char **argv) {
 
 			// Feed the document to the child.
 			// Might block because it can cause a flush.
+			for (std::size_t pv_k = 0; pv_k < lines.size(); ++pv_k) PV_TRACE("F.write", pv_index, pv_k);
 			for (auto const &line : lines)
 				child_in << line << '\n';
-			for (std::size_t pv_k = 0; pv_k < lines.size(); ++pv_k) PV_TRACE("F.write", pv_index, pv_k);
 			++pv_index;
 		}
 
